@@ -119,3 +119,10 @@ def correspondence(rep, rng, tier):
         per_n[n] = s
   rep.absorb(b, b.run())
   rep.evaluations += compared
+
+  # ---- EC keys: cached table histories, checks through protobuf keys (model: Model/Bsgs.lean)
+  import corr.c10 as c10
+  c10.correspondence(rep, rng, tier)
+  # ---- ECDSA signature checks: batches, orders, repeated calls, recorded + adversarial solver answers
+  import corr.c02s as c02s
+  c02s.correspondence_sigs(rep, rng, tier)
